@@ -1046,7 +1046,14 @@ class NodeFuncall:
                 f"Expected def but got {fn.type()}",
                 self.pos,
             )
-        return invoke(fn, self.names, self.args, environment, self.pos)
+        try:
+            return invoke(fn, self.names, self.args, environment, self.pos)
+        except RecursionError:
+            raise CklRuntimeError(
+                ValueString("ERROR"),
+                "Maximum recursion depth exceeded",
+                self.pos,
+            ) from None
 
     def __repr__(self):
         args = ", ".join([repr(arg) for arg in self.args])
